@@ -2,14 +2,14 @@
 log the results per row as integers (float64 / float32), for the whole batch and for every row alone."""
 import torch
 from torchphysics.utils import differentialoperators as do
-from .common import main, watched
+from .common import main, watched, pick
 
 GIDX = {"x": [0, 1], "t": [2], "k": [3], "y": [4, 5, 6]}
 
 
 def run_one(s):
     op, F, gs, aux, rows = s["op"], s["F"], s["gs"], s["aux"], s["rows"]
-    dtype = torch.float64 if s["tid"] % 4 else torch.float32
+    dtype = torch.float64 if pick(s["tid"], 4) else torch.float32
     res = {"exc": "", "batch": [], "single": [], "dtype": "f64" if dtype == torch.float64 else "f32", "shape_ok": True}
 
     def evaluate(rws, axes=1):
